@@ -11,6 +11,25 @@ import miros.thread_safe_attributes as mtsa
 import tsa_stmts
 
 
+def class_codes(cls, *extra):
+    """code objects of every function defined in the class body (and the functions nested in them): a helper method a change
+    introduces is interleaved bytecode by bytecode as well"""
+    import types
+    out = []
+
+    def add(code):
+        out.append(code)
+        for c in code.co_consts:
+            if isinstance(c, types.CodeType):
+                add(c)
+    for v in list(vars(cls).values()) + list(extra):
+        f = getattr(v, "__func__", v)
+        f = getattr(f, "__wrapped__", f)
+        if isinstance(f, types.FunctionType):
+            add(f.__code__)
+    return out
+
+
 def run_threads(fns, chooser, tracer_codes=None, max_steps=20000):
     """run callables as managed threads; returns (schedule of thread indices, errors, sched)"""
     sched = dsched.Sched(chooser, max_steps=max_steps)
@@ -49,7 +68,7 @@ def singleton_run(n, chooser, opcode=False):
             def f():
                 rets[i] = dec()
             return f
-        codes = [msing.SingletonDecorator.__call__.__code__] if opcode else None
+        codes = class_codes(msing.SingletonDecorator) if opcode else None
         order, errors, outcome, fin = run_threads([mk(i) for i in range(n)], chooser, codes)
         return order, errors, [r.oid if r is not None else None for r in rets], next(counter)
     finally:
@@ -113,7 +132,7 @@ def registry_run(progs, chooser, opcode=False, via="append"):
                     else:
                         getattr(reg, "N%d" % name)
             return f
-        codes = [mevent.SignalSource.append.__code__, mevent.SignalSource.__getattr__.__code__] if opcode else None
+        codes = [c for c in class_codes(mevent.SignalSource) if c.co_name not in ("__init__",)] if opcode else None
         order, errors, outcome, fin = run_threads([mk(p) for p in progs], chooser, codes)
         return order, errors, before, dict(reg), reg
     finally:
@@ -276,10 +295,16 @@ KIND = {"read": 0, "assign": 1, "aug": 2, "misread": 3}
 
 
 def tsa_run(progs, chooser, opcode=False):
+    with dsched.PatchedLocks(mtsa):        # locks the code creates at run time are scheduler-aware too
+        return _tsa_run(progs, chooser, opcode)
+
+
+def _tsa_run(progs, chooser, opcode=False):
     Obj = make_tsa_class()
     o = Obj()
     desc = Obj.__dict__["x"]
-    desc._lock = dsched.DRLock()
+    if hasattr(desc, "_lock"):
+        desc._lock = dsched.DRLock()
 
     def mk(p):
         def f():
@@ -293,9 +318,11 @@ def tsa_run(progs, chooser, opcode=False):
                 else:
                     tsa_stmts.do_misread(o)
         return f
-    codes = [mtsa.ThreadSafeAttribute.__get__.__code__, mtsa.ThreadSafeAttribute.__set__.__code__] if opcode else None
+    codes = [c for c in class_codes(mtsa.ThreadSafeAttribute) if c.co_name not in ("__init__", "__set_name__")] if opcode else None
     order, errors, outcome, fin = run_threads([mk(p) for p in progs], chooser, codes)
-    lock = desc._lock
+    lock = getattr(desc, "_lock", None)
+    if not isinstance(lock, dsched.DRLock):
+        lock = dsched.DRLock()          # the descriptor keeps no lock of its own any more: nothing to report about it
     owner = None
     if lock._owner is not None:
         owner = int(lock._owner.name[1:]) if hasattr(lock._owner, "name") else -1
@@ -424,6 +451,45 @@ def explore_instances(run, n_random):
                                 % (i, got, model.get(i, 0)), {"what": "instances", "ops": ops})
         run.traces_validated += 1
         run.case({"what": "instances", "ops": ops}, nontrivial=len(insts) >= 2)
+
+
+def explore_instances_threads(run, n_random):
+    """C29 under threads: each thread works on its OWN instance (reads and assignments), every bytecode of the descriptor a
+    scheduling point; a read returns the last value that thread assigned to its instance"""
+    rng = run.rng
+    for _ in range(n_random):
+        with dsched.PatchedLocks(mtsa):
+            Obj = make_tsa_class()
+            nt = rng.randint(2, 3)
+            insts = [Obj() for _ in range(nt)]
+            progs = [[("set", rng.randint(1, 99)) if rng.random() < 0.4 else ("get",) for _ in range(rng.randint(2, 5))] for _ in range(nt)]
+            bad = []
+
+            def mk(i):
+                def f():
+                    last = 0
+                    for op in progs[i]:
+                        if op[0] == "set":
+                            tsa_stmts.do_assign(insts[i], op[1])
+                            last = op[1]
+                        else:
+                            got = tsa_stmts.do_read(insts[i])
+                            if got != last:
+                                bad.append((i, got, last))
+                return f
+            codes = [c for c in class_codes(mtsa.ThreadSafeAttribute) if c.co_name not in ("__init__", "__set_name__")]
+            seed = rng.randrange(1 << 30)
+            order, errors, outcome, fin = run_threads([mk(i) for i in range(nt)], dsched.random_chooser(random.Random(seed)), codes)
+        cj = {"what": "instances-threads", "progs": progs, "seed": seed, "schedule": order}
+        run.count("instances used by different threads (bytecode level)")
+        run.traces_validated += 1
+        if errors:
+            run.violate("C29/thread-error", "threads working on different instances failed: %s" % errors[:2], cj)
+        if bad:
+            i, got, last = bad[0]
+            run.violate("C29/value-shared-between-instances", "thread %d read %r from its own instance, to which it last assigned %r, while "
+                        "other threads used other instances" % (i, got, last), cj)
+        run.case(cj, nontrivial=True)
 
 
 def replay(case):
